@@ -232,7 +232,7 @@ def run(ctx):
     # the determinism pairs once more without red zones (a read the sanitizer would have stopped now reaches the wire)
     n4 = (len(scns) // 2) // 4 // 16 * 16
     sub = scns[:n4] + scns[len(scns) // 2:len(scns) // 2 + n4]
-    run_monitored(ctx, plain, sub, monitor, tag="wf-plain", nshards=16)
+    run_monitored(ctx, plain, sub, monitor, tag="wf-plain", nshards=16, env_extra={"VH_PAD": "256"})
     # MemorySanitizer: __msan_check_mem_is_initialized on every transmitted frame, allocations left poisoned
     half = scns[:len(scns) // 2]
     run_monitored(ctx, msan, half if not ctx.quick else half[:480], msan_monitor, tag="msan", nshards=16)
